@@ -640,13 +640,16 @@ class Prover:
     def _prove_shape(self, c, shape, ur):
         is_lemma = isinstance(c, Lemma)
         contracts = self.callee_table(c)
-        shape_tag = ",".join(f"{k}={v.v!r}" for k, v in shape.items() if isinstance(v, Const) and not callable(v.v))[:80]
+        shape_tag = ",".join(f"{k}={(v.v.__name__ if isinstance(v.v, type) else repr(v.v))}" for k, v in shape.items() if isinstance(v, Const) and (isinstance(v.v, type) or not callable(v.v)))[:80]
 
         def run_path(ctx):
             it = E.Interp(ctx, contracts=contracts, loop_specs=c.loops)
             try:
                 vals = {n: t.make(n, ctx) for n, t in shape.items()}
                 ctx.arg_values = vals
+                from . import lib as _lib
+
+                ctx.old_values = _lib.h_deepcopy(it, vals) if getattr(c, "wants_old", False) else None
                 for rq in c.all_requires():
                     try:
                         pre = _spec_call(ctx, rq, vals, contracts)
@@ -752,6 +755,8 @@ class Prover:
                 return
             # normal return: every ensures clause
             vals2 = dict(vals, result=val)
+            if getattr(ctx, "old_values", None) is not None:
+                vals2["old"] = NS(**ctx.old_values)
             for en, efn in c.ensures.items():
                 oid = f"{c.id}/{en}{tag}/{pid}"
                 try:
@@ -767,8 +772,14 @@ class Prover:
                     ur.obls.append(o)
                     continue
                 except E.PyRaise as pr:
-                    # the postcondition text itself raised on this path: treat as a failed clause to look at
-                    goal = False
+                    # the postcondition text itself raised on this path (e.g. the result lacks a field): the
+                    # clause is undefined symbolically; the native side decides it on concrete inputs
+                    o = Obl(oid, "post")
+                    o.status = "undecided"
+                    o.detail = f"postcondition raised {pr.exc_cls.__name__}{pr.exc_args!r} during symbolic evaluation"
+                    ur.undecided_reasons.append(f"{oid}: {o.detail}")
+                    ur.obls.append(o)
+                    continue
                 except E.PathEnd:
                     continue
                 self._discharge(c, ur, oid, "post", ctx.pc, goal, shape, ctx)
@@ -878,7 +889,7 @@ class Prover:
                         pass
                     return dict(status="fail", clause=f"raises_{exc_cls.__name__}", detail=f"{type(ex).__name__}: {ex} raised where the contract does not allow it")
             return dict(status="fail", clause="no_exception", detail=f"{type(ex).__name__}: {ex}")
-        vals = dict(args, result=res)
+        vals = dict(call_args if isinstance(call_args, dict) else args, result=res, old=NS(**args))
         for en, efn in c.ensures.items():
             try:
                 ok = _native_spec(efn, vals)
